@@ -273,6 +273,36 @@ fn run_next(base: &Consensus, i: &NextIn) -> Option<Ee> {
     guard(|| c.next_epoch_ext(&header, &mock).map(|n| Ee::of(&n.epoch()))).flatten()
 }
 
+/// the dev-chain configuration (dummy PoW with permanent difficulty): same inputs, the other branch of next_epoch_ext
+fn run_next_permanent(base: &Consensus, i: &NextIn) -> Option<Ee> {
+    let mut c = base.clone();
+    c.epoch_duration_target = i.t;
+    c.initial_primary_epoch_reward = Capacity::shannons(i.init);
+    c.primary_epoch_reward_halving_interval = i.halving;
+    c.permanent_difficulty_in_dummy = true;
+    if !c.permanent_difficulty() { return None; }
+    let header = HeaderBuilder::default().number(i.hnum).compact_target(i.hcompact).build();
+    let mock = Mock { epoch: i.e.build(), uncles: i.uncles, dur: i.dur };
+    guard(|| c.next_epoch_ext(&header, &mock).map(|n| Ee::of(&n.epoch()))).flatten()
+}
+/// with permanent difficulty the next epoch keeps target and hash rate, lasts ceil(T / 8) blocks, and its block rewards
+/// still add up to the SCHEDULED primary issuance of its number (halvings included)
+fn pred_next_permanent(i: &NextIn, out: &Option<Ee>, viol: &mut Vec<Violation>) {
+    if !realistic(i) { return; }
+    let d = i.json();
+    let Some(o) = out else { vio(viol, "next_epoch_ext (permanent difficulty) gave no answer / panicked on in-range epoch statistics", d); return; };
+    let l = i.e.length;
+    let n1 = i.e.number + 1;
+    let exp_len = (i.t + 7) / 8;
+    let exp_reward = if n1 % i.halving != 0 { i.e.base * l + i.e.rem } else if n1 / i.halving < 64 { i.init >> (n1 / i.halving) } else { 0 };
+    if o.length != exp_len || o.number != n1 || o.start != i.hnum + 1 || o.compact != i.e.compact || o.prev_hr != i.e.prev_hr {
+        vio(viol, "permanent difficulty: next epoch number / start / length / target / hash rate wrong", json!({"case": d, "number": o.number, "start": o.start, "length": o.length, "compact": o.compact}));
+    }
+    if o.length > 0 && (o.base as u128 * o.length as u128 + o.rem as u128 != exp_reward as u128 || o.rem >= o.length) {
+        vio(viol, "permanent difficulty: base*length+remainder of the next epoch is not the scheduled primary reward (halving on schedule)", json!({"case": d, "base": o.base, "rem": o.rem, "length": o.length, "scheduled": exp_reward}));
+    }
+}
+
 /// inputs for which the property promises an answer (no panic): see the rule text
 fn realistic(i: &NextIn) -> bool {
     let diff = compact_to_difficulty(i.hcompact);
@@ -1161,6 +1191,11 @@ fn main() {
         };
         let outp = run_next(&base, &i);
         pred_next(&i, &outp, &mut viol);
+        {
+            let op = run_next_permanent(&base, &i);
+            pred_next_permanent(&i, &op, &mut viol);
+            if op.is_some() { count!("next_permanent_difficulty_answers"); if (i.e.number + 1) % i.halving.max(1) == 0 { count!("next_permanent_difficulty_at_halving"); } }
+        }
         if realistic(&i) {
             next_realistic += 1;
         }
